@@ -1056,6 +1056,7 @@ fn configure_build(
         &modules,
         merge_opts.as_ref(),
         &global_env_flattened,
+        &global_env,
         outfile.as_str(),
         &tasks,
     );
